@@ -237,6 +237,46 @@ func runC13(w *mc.Worker) {
 		})
 	})
 
+	// every number of digits up to 40 (each power of ten up to 10^42 as a scale): the places where a
+	// machine-word short cut for 10^n or for the numerator stops being valid
+	w.Stage("digit-count-sweep", "percentages with every number q = 0..40 of fractional digits (digits 3…3, 0…01, 9…9 after 12 / 0 / 99, and 100.0…0%) and with 1..40 integer digits (leading zeros), ratios n/10^k and (10^k-1)/10^k for k = 1..40; three routes + ParsePercentageRatio", func() {
+		w.Outer("digit-count-sweep/text", 0, func(o *mc.Explorer) {
+			q := o.Choose(41)
+			kind := o.Choose(8)
+			rep := func(c string, n int) string { return strings.Repeat(c, n) }
+			text := ""
+			switch kind {
+			case 0:
+				text = "12." + rep("3", q) + "%"
+			case 1:
+				text = "0." + rep("0", q) + "1%"
+			case 2:
+				text = "99." + rep("9", q) + "%"
+			case 3:
+				text = "100." + rep("0", q) + "%"
+			case 4:
+				text = rep("0", q) + "50%"
+			case 5:
+				text = rep("0", q) + "7." + rep("5", q) + "%"
+			case 6:
+				text = "25" + rep("0", q) + "/1" + rep("0", q+2)
+			case 7:
+				text = rep("9", q+1) + "/1" + rep("0", q+1)
+			}
+			if q == 0 {
+				text = strings.Replace(text, ".%", "%", 1)
+			}
+			if !w.Mine("dc" + text) {
+				return
+			}
+			w.Owned()
+			w.Inner(0, func(in *mc.Explorer) {
+				T := new(big.Int).Exp(big.NewInt(10), big.NewInt(int64(q+6)), nil)
+				check(text, T, "sweep")
+			})
+		})
+	})
+
 	// long numerals (direct and variable routes; the literal route too in the thorough tier)
 	w.Stage("long-numerals", "percentages with 25 / 400 / 20000 (thorough: 1000001) fractional digits and ratios with 30- and 1000-digit numerals: ParsePortionSpecific and the variable route (literal route in the thorough tier)", func() {
 		zeros := func(n int) string { return strings.Repeat("0", n) }
@@ -298,6 +338,62 @@ func runC13(w *mc.Worker) {
 					}
 				}
 				w.Sample("long", Case{Script: label})
+			})
+		})
+	})
+
+	// (a') a variable keeps the value it was given after it has been an operand: arithmetic on number
+	// and monetary variables (either side of + and -), then every variable written to metadata
+	w.Stage("operand-reuse", "vars n, nm (numbers in {0,5,-2,-3,2^64,10^29+..,-(2^128-1)}), amt, cod (monetaries in {USD 3, USD 2^64, USD -7}); one statement computing $n+$nm / $nm-$n / $n-$nm / $n+1 / $amt+$cod / $amt-$cod / $cod+$amt (or none), then all four variables written with set_account_meta: the stored text is the value given", func() {
+		nums := []string{"0", "5", "-2", "-3", "18446744073709551616", "123456789012345678901234567890", "-340282366920938463463374607431768211455"}
+		mons := []string{"USD 3", "USD 18446744073709551616", "USD -7"}
+		ops := []string{"", "set_tx_meta ( \"s\" , $n + $nm )", "set_tx_meta ( \"s\" , $nm - $n )", "set_tx_meta ( \"s\" , $n - $nm )", "set_tx_meta ( \"s\" , $n + 1 )",
+			"set_tx_meta ( \"s\" , $amt + $cod )", "set_tx_meta ( \"s\" , $amt - $cod )", "set_tx_meta ( \"s\" , $cod + $amt )", "set_tx_meta ( \"s\" , $n + $nm + $n )"}
+		w.Outer("operand-reuse/op", 0, func(o *mc.Explorer) {
+			op := ops[o.Choose(len(ops))]
+			twice := o.Choose(2) == 1
+			body := op + "\n"
+			if twice {
+				body += op + "\n"
+			}
+			text := "vars { number $n number $nm monetary $amt monetary $cod }\n" + body +
+				"set_account_meta ( @acc , \"n\" , $n )\nset_account_meta ( @acc , \"nm\" , $nm )\nset_account_meta ( @acc , \"amt\" , $amt )\nset_account_meta ( @acc , \"cod\" , $cod )\n"
+			if !w.Mine(text) {
+				return
+			}
+			w.Owned()
+			pr, ok := mustParse(w, text)
+			if !ok {
+				return
+			}
+			w.Inner(0, func(in *mc.Explorer) {
+				vars := map[string]string{"n": nums[in.Choose(len(nums))], "nm": nums[in.Choose(len(nums))], "amt": mons[in.Choose(len(mons))], "cod": mons[in.Choose(len(mons))]}
+				out := RunReal(pr, vars, env.New(env.Exact, nil, nil), nil)
+				key := "reuse|" + op + "|" + varsStr(vars)
+				c := Case{Script: text, Vars: vars}
+				if out.Panic != "" {
+					w.Eval(key, true, "reuse:panic")
+					c.Observed = "panic: " + out.Panic
+					w.Violation("C13.panic:operand-reuse@"+out.Where, "arithmetic on variables panicked: "+out.Panic, len(text), c)
+					return
+				}
+				if out.Err != nil {
+					w.Eval(key, true, "reuse:error")
+					c.Observed = "error: " + out.Err.Error()
+					w.Violation("C13.rejected:operand-reuse", "a script doing arithmetic on well-typed number / monetary variables failed", len(text), c)
+					return
+				}
+				w.Eval(key, op != "", "reuse:ok")
+				for _, k := range []string{"n", "nm", "amt", "cod"} {
+					if got := out.AcctMeta["acc"][k]; got != vars[k] {
+						c.Observed = fmt.Sprintf("$%s was given %q and written to metadata as %q", k, vars[k], got)
+						w.Violation("C13.value:operand-reuse", "a variable no longer holds the value it was given after it has been an operand of + or -", len(text), c)
+						return
+					}
+				}
+				if op != "" {
+					w.Sample("reuse", Case{Script: text, Vars: vars, Observed: "all four variables written back unchanged"})
+				}
 			})
 		})
 	})
